@@ -265,6 +265,10 @@ SHAPES = [  # one event / one state / both: the shapes that used to crash
            _theta=dict(beta=0.3, gamma=0.4),
            events=[dict(rate="beta*X", kind="linear", trans=[dict(ty="D", o=0, d=None, mag="3")]),
                    dict(rate="gamma", kind="const", trans=[dict(ty="B", o=None, d=0, mag="1")])]) for sd in (5, 6, 7, 8)],
+    # a fixed step of 0.1 whose multiples reach the horizon from below up to rounding (0.1 * 10 -> 0.9999999999999999; 0.1 * 8 -> 0.7999999999999999)
+    *[dict(states=["X"], params=["beta", "gamma"], derived=[], decl="list", odes=[], _x0=[4], _T=T_, _tau_only=True, _pre_tau=0.1, _seed=3,
+           _theta=dict(beta=6.0, gamma=0.4),
+           events=[dict(rate="beta", kind="const", trans=[dict(ty="B", o=None, d=0, mag="1")])]) for T_ in (1.0, 0.8)],
     # non-integer jump sizes from an initial state given as integers (Python ints / an int64 array): the state is a float vector
     dict(states=["A", "B", "C"], params=["beta", "gamma"], derived=[], decl="list", odes=[], _x0=[40, 0, 0], _x0_int="list", _T=2.0,
          events=[dict(rate="beta*A/8", kind="linear", trans=[dict(ty="T", o=0, d=1, mag="2.5")]),
@@ -289,7 +293,7 @@ def drive(ck, pid, limits):
                 continue
             cases.append(dict(definition=dd, x0=d.get("_x0", [6] * len(d["states"])),
                               theta=d.get("_theta", {p: 0.75 for p in d["params"]}),
-                              exact=exact, pre_tau=(0.25 if d.get("_tau_only") else None), epsilon=0.03, seed=d.get("_seed", 5), T=d.get("_T", 1.5),
+                              exact=exact, pre_tau=(d.get("_pre_tau", 0.25) if d.get("_tau_only") else None), epsilon=0.03, seed=d.get("_seed", 5), T=d.get("_T", 1.5),
                               x0_int=d.get("_x0_int")))
     cases += [gen_case(rng, limits=limits) for _ in range(N)]
     coq_cases, dist = [], {}
@@ -365,10 +369,10 @@ def late_start_check(exact, seed, t0=5.0):
 
 def run(ck):
     for exact in (True, False):
-        for sd in (1, 2):
-            inp = dict(kind="late-start", exact=exact, seed=sd)
+        for sd, t0 in ((1, 5.0), (2, 5.0), (3, 738000.0)):        # (738000: a calendar clock, day numbers)
+            inp = dict(kind="late-start", exact=exact, seed=sd, t0=t0)
             ck.case(inp, nontrivial=True)
-            bad = late_start_check(exact, sd)
+            bad = late_start_check(exact, sd, t0)
             if bad:
                 ck.violation("start", bad, inp)
     ck.rule = ("bounded-rate event models (1-5 states, 1-5 events of 1-3 T/B/D transitions, magnitudes 1-3) incl. fixed "
@@ -380,7 +384,7 @@ def run(ck):
 def replay(ck, data):
     c = data["input"]
     if c.get("kind") == "late-start":
-        return late_start_check(c["exact"], c["seed"])
+        return late_start_check(c["exact"], c["seed"], c.get("t0", 5.0))
     r = run_path(c)
     j = judge(c, r)
     return j[1] if j else None
